@@ -869,11 +869,11 @@ func firstPos(b *ssa.BasicBlock) token.Pos {
 	return token.NoPos
 }
 
-// trInvariant translates a loop invariant. In a safety sweep an invariant that names a local which no longer
+// trInvariant translates a loop invariant. In a safety or lock-check sweep an invariant that names a local which no longer
 // exists (the loop was rewritten) is dropped with a note instead of stopping the whole function: the safety
 // obligations that needed it then fail by name, which is the useful report.
 func (ex *Exec) trInvariant(inv Clause, env *Env) (g string, ok bool) {
-	if !ex.safety {
+	if !ex.safety && !ex.lockCheck {
 		return ex.trBool(inv.Expr, env), true
 	}
 	defer func() {
